@@ -132,7 +132,7 @@ SITES = [
     "output", "echo", "assign", "filter-arg", "filter-kwarg", "path-segment", "case-when", "cycle-item", "cycle-group",
     "with-arg", "include-arg", "render-arg", "call-arg", "macro-default", "array-literal", "tstr-before", "tstr-after", "ternary-left",
     "ternary-else", "compare", "liquid-echo", "include-name", "render-with", "default-filter",
-    "tstr-after-inner-string", "render-name", "extends-name", "counter-name", "group-name-respelled", "macro-name", "block-name", "alias-name",
+    "tstr-after-inner-string", "tstr-after-inner-empty-string", "tstr-after-inner-tstr", "tstr-between-inner-strings", "render-name", "extends-name", "counter-name", "group-name-respelled", "macro-name", "block-name", "alias-name",
 ]  # fmt: skip
 
 
@@ -211,6 +211,19 @@ def site_program(site: str, lit: str, intended: str) -> tuple[str, dict[str, str
         oq = '"' if q == "'" else "'"
         data = {"v": "V"}
         return ("{{ " + q + "${ v | append: " + oq + "!" + oq + " }" + lit[1:] + " | json }}", partials, data, "json-prefix-V!")
+    if site == "tstr-after-inner-empty-string":
+        oq = '"' if q == "'" else "'"
+        data = {"v": "V"}
+        return ("{{ " + q + "${ v | append: " + oq + oq + " }" + lit[1:] + " | json }}", partials, data, "json-prefix-V")
+    if site == "tstr-after-inner-tstr":
+        # the interpolation contains a template string of the other quote kind, itself with an (empty-string) interpolation
+        oq = '"' if q == "'" else "'"
+        data = {"v": "V"}
+        return ("{{ " + q + "${ v | append: " + oq + "${ " + q + q + " }!" + oq + " }" + lit[1:] + " | json }}", partials, data, "json-prefix-V!")
+    if site == "tstr-between-inner-strings":
+        oq = '"' if q == "'" else "'"
+        data = {"v": "V"}
+        return ("{{ " + lit[:-1] + "${ v | default: " + oq + oq + " }${ " + oq + oq + " }" + q + " | json }}", partials, data, "json-suffix-V")
     if site in ("render-name", "extends-name"):
         if intended == "":
             return None
@@ -235,6 +248,9 @@ def site_program(site: str, lit: str, intended: str) -> tuple[str, dict[str, str
     raise ValueError(site)
 
 
+GENEROUS = {"output_stream_limit": 10**7, "loop_iteration_limit": 10**7, "local_namespace_limit": 10**9}
+
+
 def check_string(site: str, intended: str, lit: str, res: ShardResult | None) -> list[tuple[str, Any, Any, Any]]:
     out: list[tuple[str, Any, Any, Any]] = []
     prog = site_program(site, lit, intended)
@@ -242,8 +258,17 @@ def check_string(site: str, intended: str, lit: str, res: ShardResult | None) ->
         return out
     src, partials, data, obs = prog
     env = impl.make_env(templates=partials)
+    # the same program under generous resource limits (another output buffer class, counting assigns and loops):
+    # a limit that is not reached denotes the same text
+    env_l = impl.make_env(templates=partials, limits=GENEROUS)
+    try:
+        rendered_l: Any = env_l.from_string(src).render(**data)
+    except Exception as e:  # noqa: BLE001
+        rendered_l = f"{type(e).__name__}"
     try:
         rendered = env.from_string(src).render(**data)
+        if rendered_l != rendered:
+            out.append((f"C20:string-literal-differs-under-unreached-limits:{site}:{_cls(lit)}", {"site": site, "source": src, "intended": intended, "limits": GENEROUS}, rendered, rendered_l))
     except LiquidError as e:
         out.append((f"C20:string-literal-rejected:{site}:{_cls(lit)}", {"site": site, "source": src, "intended": intended}, intended, f"{type(e).__name__}: {e.message}"))
         return out
@@ -251,7 +276,7 @@ def check_string(site: str, intended: str, lit: str, res: ShardResult | None) ->
         out.append((f"C20:string-literal-foreign-exception:{site}:{type(e).__name__}", {"site": site, "source": src, "intended": intended}, intended, f"{type(e).__name__}: {e}"))
         return out
     if res is not None:
-        res.evaluations += 1
+        res.evaluations += 2
         if lit[1:-1] != intended or any(ord(c) > 127 or c in "'\"\\$" for c in intended):
             res.nontrivial.add(h64(src))
     got: Any
